@@ -226,7 +226,9 @@ def gen_random(scn, rng, depth, topology=False):
             hist.append(('SetAllocs', [rng.randrange(len(scn['allocsets'])) + 1]))
         elif r < 0.91:
             hist.append(('Blacklist', [rng.choice([[], ['proid.web'], ['proid.*'], ['other.app'],
-                                                    ['pro*.web'], ['*.db'], ['*id.w?b', 'other.*']])]))
+                                                    ['pro*.web'], ['*.db'], ['*id.w?b', 'other.*'],
+                                                    # exact names that are a PREFIX of instance names
+                                                    ['proid.we'], ['other.a', 'proid.d']])]))
         elif r < 0.96:
             if days < 18 and rng.random() < 0.25:
                 d = rng.choice([1, 4, 8, 16])
